@@ -51,10 +51,18 @@ def build_harness():
     _built = True
 
 
-def run_vh(args, stdin=None, timeout=1800):
+class HarnessTimeout(Exception):
+    pass
+
+
+def run_vh(args, stdin=None, timeout=1200):
     build_harness()
-    p = subprocess.run([VH] + args, input=stdin, stdout=subprocess.PIPE, stderr=subprocess.PIPE, text=True,
-                       timeout=timeout)
+    try:
+        p = subprocess.run([VH] + args, input=stdin, stdout=subprocess.PIPE, stderr=subprocess.PIPE, text=True,
+                           timeout=timeout)
+    except subprocess.TimeoutExpired:
+        # the code under test spins without ever blocking on its environment: no log can be completed
+        raise HarnessTimeout("the harness did not finish within %d s" % timeout)
     return p
 
 
